@@ -233,8 +233,34 @@ def run(prog, rep):
                     (fld, cnt, l2, how, why) = bad
                     rep.ob("C18.6", fn, inst, False, "line %d: %s (%s) is called while %s; %s dereferences that member at line %d (%s) without a NULL test: "
                            "the unwinding of a failed allocation crashes instead of reporting the failure" % (ln, cal, v, why, cal, l2, how), c, w, info=f0.name not in reach)
+    # the same for a member that holds the result of a call that can fail: stored without a test, it reaches a libc routine that
+    # dereferences it (the name argument of sem_open / shm_open, ...) only after a NULL test on the path - the constructor's own, or
+    # the argument check of the static helper it calls (inlined here); remove that check as "dead code" and an allocation failure in
+    # the key derivation becomes sem_open (NULL)
+    fallible = set(T.fresh) | {"p_malloc", "p_malloc0", "p_strdup"}
+    nm6 = 0
+    for un, u in sorted(prog.units.items()):
+        if un in INFORMATIONAL:
+            continue
+        for f0 in sorted(u.functions.values(), key=lambda f: f.loc[0]):
+            if not any(c.get("callee") in fallible for (b, i, c) in f0.calls()):
+                continue
+            fn = u.fn(f0.name)
+            try:
+                um = partial.unchecked_members(fn, fallible)
+            except AnalysisBroken:
+                continue
+            stores = [n for (b, i, n) in fn.nodes(elsewhere=True) if n["k"] == "asg" and strip_casts(n["l"])["k"] == "member" and strip_casts(n["r"]) is not None
+                      and strip_casts(n["r"])["k"] == "call" and strip_casts(n["r"]).get("callee") in fallible]
+            if not stores:
+                continue
+            nm6 += 1
+            rep.ob("C18.6", fn, "member-result", not um, "members filled from calls that can return NULL reach dereferencing libc routines only behind a NULL test" if not um else
+                   "line %d: %s holds the untested result of a call that returns NULL when an allocation fails (stored at line %d) and is passed to %s, which dereferences it: "
+                   "the failed allocation crashes the process instead of failing the call" % (line(um[0][0]), um[0][1], um[0][3], um[0][2]), um[0][0] if um else fn.loc[0],
+                   um[0][4] if um else None, info=f0.name not in reach)
     # (the floor counts call sites; a `goto fail` single-exit form merges the two of p_shm_new into one)
-    rep.floor("C18.6", 4)
+    rep.floor("C18.6", 4 + 4)
 
 
 def short(p):
@@ -245,6 +271,9 @@ def short(p):
 RENAME_LOCALS = ['src/pinifile.c', 'src/pdir-posix.c', 'src/pshm-posix.c', 'src/pipc.c', 'src/psocket.c']
 
 SELFTEST = [
+    dict(id="semaphore-create-handle-key-check-dropped", file="src/psemaphore-posix.c", expect="C18.6",
+         old="\tif (P_UNLIKELY (sem == NULL || sem->platform_key == NULL)) {\n\t\tp_error_set_error_p (error,\n\t\t\t\t     (pint) P_ERROR_IPC_INVALID_ARGUMENT,\n\t\t\t\t     0,\n\t\t\t\t     \"Invalid input argument\");\n\t\treturn FALSE;\n\t}\n\n\tinit_val = sem->init_val;",
+         new="\tinit_val = sem->init_val;"),
     dict(id="list-append-null-test-dropped", file="src/plist.c", expect="C18.1",
          old="\tif (P_UNLIKELY ((item = p_malloc0 (sizeof (PList))) == NULL)) {\n\t\tP_ERROR (\"PList::p_list_append: failed to allocate memory\");\n\t\treturn list;\n\t}\n",
          new="\titem = p_malloc0 (sizeof (PList));\n"),
